@@ -212,19 +212,21 @@ fn run_uist(sc: &Value) -> Value {
             let shadow = if o == "tick" {
                 let a = data.lock().unwrap();
                 a.backtests.get(&u(&op["id"])).and_then(|b| {
-                    a.datasets.get(&b.dataset_name).map(|d| {
+                    a.datasets.get(&b.dataset_name).and_then(|d| {
                         let mut x = b.exchange.clone();
-                        let out = match d.get_quotes(&b.date) {
-                            Some(row) => { let r = x.tick(row); u_tick_json(false, &r.0, &r.1) }
-                            None => u_tick_json(false, &[], &[]),
-                        };
-                        (out, uist_snap(&x))
+                        catch(|| {
+                            let out = match d.get_quotes(&b.date) {
+                                Some(row) => { let r = x.tick(row); u_tick_json(false, &r.0, &r.1) }
+                                None => u_tick_json(false, &[], &[]),
+                            };
+                            (out, uist_snap(&x))
+                        }).ok()
                     })
                 })
             } else { None };
             let r = if via_http {
                 // handlers lock the same AppState
-                Ok(uist_http(&app, op).await)
+                catch_async(uist_http(&app, op)).await
             } else {
                 catch(|| uist_direct(&data, op))
             };
@@ -284,7 +286,7 @@ where
     use hj::jurav1_server::*;
     let o = s(&op["op"]);
     let req_text: Value = match o.as_str() {
-        "insert" => Value::from(serde_json::to_string(&InsertOrderRequest { order: jura_order_of(&op["order"]) }).unwrap()),
+        "insert" => Value::from(serde_json::to_string(&json!({"order": jura_order_wire_json(&op["order"])})).unwrap()),
         "delete" => Value::from(serde_json::to_string(&DeleteOrderRequest { asset: u(&op["asset"]), order_id: u(&op["order_id"]) }).unwrap()),
         _ => Value::Null,
     };
@@ -295,7 +297,7 @@ where
         "info" => test::TestRequest::get().uri(&format!("/backtest/{}/info", u(&op["id"]))),
         "insert" => test::TestRequest::post()
             .uri(&format!("/backtest/{}/insert_order", u(&op["id"])))
-            .set_json(InsertOrderRequest { order: jura_order_of(&op["order"]) }),
+            .set_json(json!({"order": jura_order_wire_json(&op["order"])})),
         "delete" => test::TestRequest::post()
             .uri(&format!("/backtest/{}/delete_order", u(&op["id"])))
             .set_json(DeleteOrderRequest { asset: u(&op["asset"]), order_id: u(&op["order_id"]) }),
@@ -370,7 +372,7 @@ fn run_jura(sc: &Value) -> Value {
                     })
                 })
             } else { None };
-            let r = if via_http { Ok(jura_http(&app, op).await) } else { catch(|| jura_direct(&data, op)) };
+            let r = if via_http { catch_async(jura_http(&app, op)).await } else { catch(|| jura_direct(&data, op)) };
             let r = r.map(|mut v| {
                 if let (Some((out, snap)), Some(got)) = (&shadow, v.get("some").cloned()) {
                     let a = data.lock().unwrap();
